@@ -60,6 +60,16 @@ Proof.
 Qed.
 End X2.
 
+(* pointer-valued cells (NULL or an address): what the null tests in front of the dropped fclose calls need *)
+Definition pv (v : value) : Prop := match v with VInt _ => False | _ => True end.
+Lemma x_fclose_skip : forall prog vt fuel e s v,
+  eval s e = Ok v -> pv v ->
+  exec prog vt (S (S fuel)) (SIf (EUn TBool LNot (EIsNull e)) SSkip SSkip) s = Ok (Normal, s).
+Proof.
+  intros prog vt fuel e s v He Hp. rewrite exec_if. cbn [eval]. rewrite He. cbn [bind].
+  destruct v as [z|o off|]; [contradiction| |]; reflexivity.
+Qed.
+
 Definition streamname (fp : nat) : string := "@stream" ++ nat_string fp.
 Arguments argname : simpl never.
 Arguments streamname : simpl never.
@@ -88,6 +98,7 @@ Ltac xrun tac :=
   lazymatch goal with
   | |- exec _ _ _ (SSeq _ _) _ = _ => eapply x_seq_gen; [xrun tac | xrun tac]
   | |- exec _ _ _ (SSet _ _) _ = _ => eapply x_set; [evr2 tac; reflexivity | stn]
+  | |- exec _ _ _ (SIf (EUn TBool LNot (EIsNull _)) SSkip SSkip) _ = _ => eapply x_fclose_skip; [evr2 tac; reflexivity | assumption]
   | |- exec _ _ _ (SIf _ _ _) _ = _ => eapply x_if_gen; [evr2 tac; reflexivity | cbn [Z.eqb Pos.eqb]; xrun tac]
   | |- exec _ _ _ SSkip _ = _ => apply x_skip
   | |- exec _ _ _ SBreak _ = _ => apply x_break
